@@ -378,7 +378,17 @@ void cstl_array_alloc(cstl_array_t * const a,
 {
     struct cstl_raw_array * ra;
 
-    cstl_shared_ptr_reset(&a->ptr);
+    /*
+     * the object starts over as an empty array: any offset or
+     * length left over from a previous life as a slice is dropped
+     */
+    cstl_array_reset(a);
+
+    if (sz != 0 && nm > (SIZE_MAX - sizeof(*ra)) / sz) {
+        /* the size of the allocation cannot be represented */
+        return;
+    }
+
     cstl_shared_ptr_alloc(&a->ptr, sizeof(*ra) + nm * sz, NULL);
 
     ra = cstl_shared_ptr_get(&a->ptr);
@@ -455,7 +465,8 @@ void cstl_array_slice(cstl_array_t * const a,
 
     if (ra == NULL
         || end < beg
-        || a->off + end > ra->nm) {
+        || end > ra->nm
+        || a->off > ra->nm - end) {
         abort();
     }
 
